@@ -187,7 +187,12 @@ pub(crate) fn inline_def_body(
     params: &ParametersCompiled<IrSpanned<ExprCompiled>>,
     body: &StmtsCompiled,
 ) -> Option<InlineDefBody> {
-    if params.params.len() == 1 && params.params[0].accepts_positional() {
+    // The call site is rewritten for one positional argument: the only parameter must be one
+    // which can be filled positionally (not `*args`, `**kwargs` or a keyword-only parameter).
+    if params.params.len() == 1
+        && params.params[0].accepts_positional()
+        && params.indices.num_positional == 1
+    {
         if let Some(t) = is_return_type_is(body) {
             return Some(InlineDefBody::ReturnTypeIs(t));
         }
